@@ -10,6 +10,7 @@ THEOREMS = [
     "VK.C18_groups",
     "VK.C18_weights_count",
     "VK.C18_total",
+    "VK.C18_total_weighted",
     "VK.C18_errors",
     "VK.C18_scot_rejects",
 ]
